@@ -91,6 +91,9 @@ func c17Cases(tier string, seed uint64) []fw.Case {
 		var cc c18Case
 		json.Unmarshal(c.Desc, &cc)
 		if cc.Link != "none" && cc.Link != "waitcatch" && cc.Hook == 0.5 && (cc.Waits == "three" || cc.Waits == "twice") {
+			if cc.Link == "fanin" {
+				psets = append(psets, c, c) // several throws racing for one catch registration: weight it
+			}
 			psets = append(psets, c)
 		}
 	}
